@@ -372,8 +372,15 @@ func flowRule(c *core.Ctx) {
 				break
 			}
 			if ifi, ok := d.Instrs[len(d.Instrs)-1].(*ssa.If); ok {
-				if ph, ok := ifi.Cond.(*ssa.Phi); ok && ph.Comment == "hasUcs2" && d.Succs[1].Dominates(x) {
-					ucsFact = true
+				// the flag is a boolean phi carried by the candidate loop (set when a candidate equals the UCS-2 coding)
+				if ph, ok := ifi.Cond.(*ssa.Phi); ok && d.Succs[1].Dominates(x) {
+					if b, ok := ph.Type().Underlying().(*types.Basic); ok && b.Kind() == types.Bool {
+						for _, l := range p.Loops() {
+							if l.Header == ph.Block() {
+								ucsFact = true
+							}
+						}
+					}
 				}
 			}
 		}
